@@ -40,6 +40,9 @@ CLAIMED = {
  "C06": dict(technique="property-based differential testing against an independent PROV-N parser written from the W3C grammar (own expression/argument tables), strict URI-level multiset oracle",
              text="Generated documents (all kinds, masks, bundles with own declarations, every value kind, hostile strings) plus an exhaustively enumerated core are printed with get_provn(); the text must parse under an independent recursive-descent parser of the PROV-N grammar and the parsed content - identifiers, formal arguments by position, '-' markers, typed/language-tagged literals, names resolved through the printed declarations - must equal the document's strict canonical content.",
              note="Trusted: pbt/readers/provn.py (about 400 lines, shares nothing with prov) as reading of the Recommendation; bundle identifiers whose scope reading is ambiguous are not judged (counted).", ref="4 C06"),
+ "C10": dict(technique="property-based differential testing against independent PROV-JSON and PROV-XML readers written from the specifications, plus structural validity predicates",
+             text="The texts emitted for C01's and C02's generated documents (and both enumerated cores) are checked against structural rules of PROV-JSON / PROV-XML and read by independent readers with their own tables (statement names, formal keys, subtype elements, prefix scoping); the recovered content must equal the document's strict canonical content, so a symmetric writer/reader mistake or a renamed key is a violation even though the library's own round trip stays green.",
+             note="Trusted: pbt/readers/provjson.py and provxml.py (stdlib json / xml.etree only). Ambiguous bundle-identifier scope is not judged (counted).", ref="4 C10"),
 }
 PENDING_REASON = "check not built yet in this round (design in DESIGN.md section 4); not claimed until the check exists and is quiet on the unchanged tree"
 checks = []
